@@ -1,6 +1,8 @@
 """C07 — extend-split areas tile the domain and each carries a valid local combination."""
 import random
 
+import numpy as np
+
 from vlib import extsplit, hooks
 from vlib.common import case_seed
 
@@ -12,7 +14,7 @@ RULE = ("seeded histories of the real extend-split strategy: d=2..4, start level
         "non-trivial = >=1 extend (lmax raise or coarsening decrease) and >=1 split beyond the initial one")
 RULE += (" A quarter of the histories are continued by a second performSpatiallyAdaptiv(start levels, refinement_container=current refinement) for 1..3 further steps.")
 REQUIRED = ["boxes_valid", "volumes_sum_to_domain", "disjoint_interiors", "coarsening_nonnegative", "assignment_exactly_once",
-            "assignment_in_containing_leaf", "local_coefficient_sum", "local_nodal_reproduction"]
+            "assignment_in_containing_leaf", "local_coefficient_sum", "local_nodal_reproduction", "same_point_list_object_reused"]
 MIN_NONTRIVIAL = {"quick": 60, "thorough": 600}
 CHUNK = {"quick": 8, "thorough": 40}
 ASSUMPTIONS = ["d<=4; <=12 (d=2) / 7 (d=3) / 4 (d=4) refinement steps in the quick tier",
@@ -32,6 +34,7 @@ class Obs(hooks.Observer):
         self.extends = 0
         self.splits = 0
         self._before = None
+        self.fixed = None
 
     def deepest(self, c):
         return 0
@@ -57,11 +60,26 @@ class Obs(hooks.Observer):
     def after_evaluate(self, c, r):
         super().after_evaluate(c, r)
         where = "after evaluation #%d" % self.evals
+        # the user evaluates the SAME list object of points after every step (as the evaluation_points option of the driver does), with no
+        # other interpolation call in between: the answer must be the one a fresh list gets, i.e. the assignment to the CURRENT leaves
+        v_same = np.asarray(c(self.fixed), dtype=float) if self.fixed is not None else None
         if self.evals == 1:
             extsplit.check_tiling(self.res, c, where)
             extsplit.check_assignment(self.res, c, extsplit.probe_points(c, self.rng), where)
         suffix = ":version12_lmin_gt1" if (self.cfg["version"] in (1, 2) and self.cfg["lmin"] > 1) else ""
         extsplit.check_local_combination(self.res, c, where, self.f if self.cfg["boundary"] else None, rng=self.rng, sigsuffix=suffix)
+        if v_same is not None:
+            v_fresh = np.asarray(c(list(self.fixed)), dtype=float)
+            self.res.check("same_point_list_object_reused", np.array_equal(v_same, v_fresh), "extsplit_call_depends_on_list_identity" + suffix,
+                           "%s: c(points) for the list object that was evaluated last before the refinement differs from c(copy of the list) "
+                           "(max diff %.3g)" % (where, float(np.max(np.abs(v_same - v_fresh)))))
+        if self.cfg["boundary"]:
+            if self.fixed is None:
+                a, b = np.array(c.a, dtype=float), np.array(c.b, dtype=float)
+                self.fixed = [tuple(float(a[k] + self.rng.random() * (b[k] - a[k])) for k in range(c.dim)) for _ in range(40)]
+                g = [a.copy()] + [np.minimum(np.maximum(a + (b - a) * t, a), b) for t in (0.125, 0.25, 0.5, 0.625)] + [b.copy()]
+                self.fixed += [tuple(float(g[self.rng.randrange(6)][k]) for k in range(c.dim)) for _ in range(24)]
+            c(self.fixed)    # last interpolation call before the next refinement
 
 
 def run_case(case, res):
